@@ -34,7 +34,7 @@ func tryEvalCheck(r *rep.Run, kleene bool) {
 	r.SetBudget(100e9)
 	withIll := false
 	if r.Thorough() {
-		coreMax, richMax = 7, 6
+		coreMax, richMax = 8, 6
 		withIll = !kleene
 		r.SetBudget(1800e9)
 	}
